@@ -10,6 +10,39 @@ import re
 CRATES = ["ragc_common", "ragc_core", "ragc", "split_fasta", "compare_archives"]
 
 
+_PARAMS = None
+
+
+def _alias_params(fd):
+    """A parameter that was only renamed keeps the name the rules know (position-based alias from
+    engine/tables/param_names.json).  Applied only to names that are new to the function: if the current names
+    are the frozen names in another order, the signature was reordered and the current names are right."""
+    global _PARAMS
+    if os.environ.get("VERIF_NO_PARAM_ALIAS"):
+        return
+    if _PARAMS is None:
+        p = os.path.join(os.path.dirname(os.path.dirname(os.path.dirname(os.path.abspath(__file__)))), "engine", "tables", "param_names.json")
+        try:
+            with open(p) as fh:
+                _PARAMS = json.load(fh)["functions"]
+        except OSError:
+            _PARAMS = {}
+    frozen = _PARAMS.get(fd["key"])
+    if not frozen or len(frozen) != fd.get("arg_count"):
+        return
+    cur = {}
+    for v in fd["dbg"]:
+        if "arg" in v and v.get("pl") is not None and not v["pl"]["p"]:
+            cur[v["pl"]["l"]] = v
+    names_now = {v["name"] for v in cur.values()}
+    fset = {n for n in frozen if n}
+    for l, v in cur.items():
+        want = frozen[l - 1] if 0 < l <= len(frozen) else None
+        if want and v["name"] != want and v["name"] not in fset and want not in names_now:
+            v["alias_of"] = v["name"]
+            v["name"] = want
+
+
 class Func:
     __slots__ = ("d", "key", "crate", "file", "blocks", "locals", "dbg", "kind", "_names",
                  "_defs", "_cfg", "root", "parent")
@@ -115,6 +148,7 @@ class Facts:
                     fd["key"] = "%s#%d" % (k, n)
                 else:
                     seen[k] = 1
+                _alias_params(fd)
                 self.funcs[fd["key"]] = Func(fd)
             for a in d["adts"]:
                 self.adts[a["key"]] = a
